@@ -85,6 +85,8 @@ class Contract(object):
         self.trusted = bool(d.get('trusted', False))    # contract assumed, body not verified (listed in evidence)
         self.bounded_only = bool(d.get('bounded_only', False))
         self.defaults = dict(d.get('defaults', {}))
+        self.canonical_slices = bool(d.get('canonical_slices', False))   # a[lo:hi] reads as the spec terms RowSlice / Slice1
+        self.ghost = list(d.get('ghost', []))           # locals that postconditions may name (deductive only: skipped natively and at call sites)
         self.decreases = d.get('decreases')             # integer expression over the parameters: strictly smaller (and >= 0) at every recursive call
         self.doc = d.get('doc', '')
 
@@ -1672,6 +1674,10 @@ class FuncVerifier(object):
             if s0.upper is not None and any(isinstance(x, ast.UnaryOp) and isinstance(x.op, ast.USub) for x in ast.walk(s0.upper)):
                 hi = z3.If(hi < 0, hi + av.shape[0], hi)      # a[:-e]: Python counts a negative stop from the end
             self.oblige(st, self.site(n, 'bounds'), z3.And(0 <= lo, lo <= hi, hi <= av.shape[0]), n)
+            if av.elem == 'int' and av.ndim in (1, 2) and 'RowSlice' in self.lib.theory.decls and 'Slice1' in self.lib.theory.decls and self.c.canonical_slices:
+                # the slice as a canonical spec term (equal slices of equal arrays are equal terms)
+                term = self.lib.theory.decls['RowSlice' if av.ndim == 2 else 'Slice1'](av.term, lo, hi)
+                return st.alloc(AV(term, (hi - lo,) + tuple(av.shape[1:]), av.elem))
             res = fresh('slice', av.term.sort())
             k_ = fresh('k', I)
             st.pc.append(z3.ForAll([k_], z3.Select(res, k_) == z3.Select(av.term, k_ + lo), patterns=[z3.Select(res, k_)]))
@@ -2516,6 +2522,21 @@ class FuncVerifier(object):
             return st.alloc(AV(res, (d0 * d1,) + tail_shape, src.elem))
         if short == 'random.randint':
             args = [self.pev(a, st) for a in n.args]
+            if 'size' in kw and len(args) in (1, 2):
+                sz = self.pev(kw['size'], st)
+                lo_, hi_ = (z3.IntVal(0), as_num(args[0])) if len(args) == 1 else (as_num(args[0]), as_num(args[1]))
+                shape = tuple(as_num(x) for x in sz) if isinstance(sz, tuple) else (as_num(sz),)
+                if len(shape) not in (1, 2):
+                    raise OutOfFragment('randint size', n)
+                for d_ in shape:
+                    self.oblige(st, self.site(n, 'alloc'), d_ >= 0, n)
+                av = fresh_array('rnd', len(shape), 'int', shape)
+                ks_ = [fresh('k', I) for _ in shape]
+                el_ = av.term
+                for k_ in ks_:
+                    el_ = z3.Select(el_, k_)
+                st.pc.append(z3.ForAll(ks_, z3.And(lo_ <= el_, el_ < hi_), patterns=[el_]))      # every draw an unconstrained value in range
+                return st.alloc(av)
             if len(args) == 1:
                 lo, hi, size = z3.IntVal(0), as_num(args[0]), None
             elif len(args) == 2:
@@ -2699,6 +2720,8 @@ class FuncVerifier(object):
         spost = SpecEval(self.lib.theory, env_post, st.heap, env, heap_pre, self.lib.preds)
         spost.fresh_locs = st.fresh_locs
         for e in callee.ensures:
+            if callee.ghost and any(isinstance(x_, ast.Name) and x_.id in callee.ghost for x_ in ast.walk(ast.parse(e, mode='eval'))):
+                continue      # a clause about a local of the callee (a witness): not visible to callers
             ez = spost.ev_bool(e)
             if z3.is_false(z3.simplify(ez)) or z3.is_true(z3.simplify(ez)):
                 # a clause that evaluates to a constant at the call site is a pure location predicate (fresh_loc / same_loc): this
